@@ -100,6 +100,9 @@ D = {
  "R3-C14-m2": ("C14", "independent seeder, round 3", "shrink takes the parent's write lock only after the node was copied and made obsolete", "shrinking remove below a real parent inode that a sibling writer modifies in between"),
  "C14-m1": ("C14", "independent seeder", "inode_4 collapse read-locks and upgrades the remaining child only after node and leaf were made obsolete; a failed upgrade leaves an obsolete node linked", "remover and a second writer that write-locks the remaining child between the remover's load of its lock word and the remover's CAS (two preemptions): every later operation through that node restarts forever"),
  "C14-m2": ("C14", "independent seeder", "removed leaf made obsolete right after its upgrade, before the remaining child's upgrade", "one preemption of the remover between opening and upgrading the remaining child's section while another thread writes inside it: obsolete leaf stays linked"),
+ "R4-C07-m1": ("C07", "independent seeder, round 4", "check() compares the lock words shifted right by one, dropping the obsolete bit", "a section opened at word 0 on a lock whose first-ever write is the one that makes it obsolete (0 -> 2 -> 1)"),
+ "R4-C13-m1": ("C13", "independent seeder, round 4", "mutex_db::scan_from takes the mutex with try_to_lock and never checks owns_lock()", "two threads: one holds the index lock (pinned get, or a writer mid-call) at the instant the other calls scan_from"),
+ "R4-C17-m1": ("C17", "independent seeder, round 4", "qsbr_ptr difference computed on uintptr_t and divided by sizeof(T)", "negative difference of wrappers over an element type wider than one byte"),
 }
 
 
